@@ -432,11 +432,15 @@ pub fn run(report: &mut Report, replay: Option<&str>) {
         }
         // ---- (a) random programs
         for _ in 0..programs_per_thread {
-            let (code, used) = progen::generate(&mut rng.fork(), Features::lua51(), 60);
+            // one program in four uses the Luau extensions (compound assignment, continue, if-expressions,
+            // interpolated strings, type annotations)
+            let luau = rng.chance(1, 4);
+            let (code, used) = progen::generate(&mut rng.fork(), if luau { Features::luau() } else { Features::lua51() }, 60);
+            r.hist("dialect", if luau { "luau" } else { "lua51" });
             for u in &used {
                 r.hist("constructs", u);
             }
-            check_rules(&mut model, r, &modelled, &Program { code: &code, origin: "random" }, &DEFAULT_RULES);
+            check_rules(&mut model, r, &modelled, &Program { code: &code, origin: if luau { "random-luau" } else { "random" } }, &DEFAULT_RULES);
             // pipelines end to end
             let generator = *rng.pick(&["retain_lines", "dense", "readable"]);
             end_to_end(&mut model, r, &code, &DEFAULT_RULES, generator);
